@@ -147,7 +147,9 @@ func genCase(rng *rand.Rand, i int) c18case {
 		// binary search (on the number of communities) for an attribute block whose estimated budget is the target
 		c.Target = 40 + rng.IntN(900)
 		if c.Block == "tiny-budget" {
-			c.Target = 25 + rng.IntN(60) // room for a handful of NLRI per message
+			// room for a handful of NLRI per message, down to estimates that say "not even one fits" while the real
+			// UPDATE still does (the estimate reserves room for attributes the path may not carry)
+			c.Target = -12 + rng.IntN(97)
 		}
 		c.Path = p
 		lo, hi := 0, 1000
@@ -383,7 +385,7 @@ func decodeLenient(body []byte, o wire.Options) (*wire.Update, error) {
 func main() {
 	vf.Main("C18", "exploration", func(r *vf.Run) {
 		bgpx.Quiet()
-		r.Rule("configurations = {IPv4, IPv4-MP, IPv6-MP} x add-path on/off x {eBGP, iBGP, RR client} (all 18 combinations cycled) x 2/4-octet AS x attribute block {small; combination of MED, AGGREGATOR, ATOMIC_AGGREGATE, ORIGINATOR_ID/CLUSTER_LIST, unknown attribute, several AS_PATH segments, communities, large communities; blocks at the 255-byte extended-length thresholds; big blocks whose sender-estimated NLRI budget is binary-searched at run time to a target of 40..940 bytes; tiny budgets of 25..85 bytes} x N in 1..5000 distinct prefixes with mixed / short / host lengths (NLRI of 1-5 resp. 1-17 bytes) x flush by EndOfRIB() (7 of 8) or by the 5 ms ticker (1 of 8). distinct_nontrivial = configurations in which the sender cut the queue into more than one UPDATE (the budget decided), keyed by (session, block, N, prefix mode)")
+		r.Rule("configurations = {IPv4, IPv4-MP, IPv6-MP} x add-path on/off x {eBGP, iBGP, RR client} (all 18 combinations cycled) x 2/4-octet AS x attribute block {small; combination of MED, AGGREGATOR, ATOMIC_AGGREGATE, ORIGINATOR_ID/CLUSTER_LIST, unknown attribute, several AS_PATH segments, communities, large communities; blocks at the 255-byte extended-length thresholds; big blocks whose sender-estimated NLRI budget is binary-searched at run time to a target of 40..940 bytes; tiny budgets of -12..84 bytes, i.e. including estimates below one NLRI} x N in 1..5000 distinct prefixes with mixed / short / host lengths (NLRI of 1-5 resp. 1-17 bytes) x flush by EndOfRIB() (7 of 8) or by the 5 ms ticker (1 of 8). distinct_nontrivial = configurations in which the sender cut the queue into more than one UPDATE (the budget decided), keyed by (session, block, N, prefix mode)")
 		r.Assume("attribute blocks stay within what serialises correctly (C17 owns one-byte length overflows): segments <= 255 ASNs, CLUSTER_LIST <= 63, unknown attributes <= 255 bytes",
 			"every attribute block leaves room for at least a few NLRI according to a correct size computation",
 			"an UPDATE that announces nothing is not judged", "a 6-byte AGGREGATOR on a 4-octet-AS session and a cleared Partial bit are C17 findings and tolerated here")
